@@ -57,6 +57,9 @@ def run_ring_program(prog, tid: str, prop: str, variant: int = 0, configs: bool 
             if not new:
                 break
             regs.append(new[0])
+    if len(regs) > sum(1 for ins in prog if ins["op"] == "seed"):
+        # and the square of the last result, through the spellings that reach numpy.square (p ** 2 is one of them)
+        rec.do("unary", [regs[-1]], keep=False, op="square", spelling=SPELLINGS[(variant + 1) % 3])
     rec.meta["source"] = "MC_Ring"
     return rec.to_json()
 
@@ -471,7 +474,7 @@ def reduce_vectors(dump_path: str):
 
 def shape_vectors(dump_path: str):
     out, _ = vectors(dump_path)
-    out = [v for v in out if v["kind"] in ("index", "transpose", "join")]
+    out = [v for v in out if v["kind"] in ("index", "transpose", "join", "moveaxis")]
     return out, {"vectors": len(out)}
 
 
@@ -519,6 +522,19 @@ def run_shape_vector(vec, tid: str, prop: str, variant: int = 0) -> dict:
         rec.meta["source"] = "MC_Shape"
         return rec.to_json()
     a = rec.new(build_poly(distinct_poly_spec(rng, shape, names=(0, 1) if variant % 2 else (0,), kind="int")))
+    if vec["kind"] == "moveaxis":
+        nd = len(shape)
+        src, dst = list(vec["source"]), list(vec["destination"])
+        if (variant // 2) % 2:
+            src = [x - nd for x in src]                      # the same axes written with negative numbers
+        if (variant // 4) % 2:
+            dst = [x - nd for x in dst]
+        p = {"source": src[0] if len(src) == 1 and variant % 3 == 0 else src, "destination": dst[0] if len(dst) == 1 and variant % 3 == 0 else dst}
+        params = {"fn": "moveaxis", "p": p, "spelling": ("numpoly", "numpy")[variant % 2]}
+        g = gather_map(params, [shape])
+        rec.do("move", [a], gather=g, model=[], **params)
+        rec.meta["source"] = "MC_Shape"
+        return rec.to_json()
     if vec["kind"] == "transpose":
         fn, p = ("transpose", "transpose_method")[variant % 2], {"axes": [x - 1 for x in vec["perm"]]}
         base = "transpose"
